@@ -108,6 +108,16 @@ def run(pid, tier):
                 log('[note] trace group %d stops at a %s-event (not judged by %s); %d events unexamined' % (gi, prop, pid, len(lines) - k))
         else:
             o.traces += s['events']
+    # float weights, design level: a minifloat (4 significant bits, round-to-nearest-even) version of the tree;
+    # TLC searches every tree of <= 4 weights and every representable target for an assertion failure
+    if pid == 'C10':
+        rf = tlc('FloatTree', 'FloatTree.cfg', pid, 'floattree', workers=6, timeout=3000, heap='6g')
+        o.add_tlc(rf, 'FloatTree (minifloat SIG=4, len<=4): search for a target that trips the post-condition assertion')
+        if rf.violated:
+            o.finding(kind='design-float', ty='minifloat', op='design', res_class='Panic: assertion failed: target_weight < self.get(index)',
+                      detail=rf.trace_text[:1500], signature='design-float:assert')
+        else:
+            require_ok(rf, 'FloatTree')
     # float weights that are not small integers: rule-only events (C10)
     if pid == 'C10':
         tr = wd / 'tree_floats.ndjson'
